@@ -56,6 +56,12 @@ func (s *Server) laURLHandlerFunc(w http.ResponseWriter, r *http.Request) {
 			http.Error(w, msg, http.StatusInternalServerError)
 			return
 		}
+		if kid16[0] != kidStart[0] || kid16[1] != kidStart[1] || kid16[2] != kidStart[2] {
+			msg := "key ID not issued by this server"
+			log.Error(msg, "kid", kid)
+			http.Error(w, msg, http.StatusBadRequest)
+			return
+		}
 		key := kidToKey(kid16)
 		keyStr := urlSafeBase64(key.PackBase64())
 		kidStr := urlSafeBase64(kid)
